@@ -664,6 +664,69 @@ pub fn corpus(sink: &mut Sink) {
     }
 }
 
+/// the next-marker plausibility heuristic: a message that contains its own frame marker (inside the storage
+/// header at offsets 4 and 5, at the start / the end of the payload, straddling the end of the message by 1..3
+/// bytes) followed by 0..6 bytes that are not / are a marker.  Outside the property's domain; model vs code only.
+pub fn heuristic_product(sink: &mut Sink) {
+    for f in 0..2u8 {
+        let marker: &[u8; 4] = if f == 0 { b"DLT\x01" } else { b"DLS\x01" };
+        // (payload, bytes of the marker that spill over the end of the message)
+        let mut shapes: Vec<(AMsg, usize)> = vec![];
+        let mut pl = marker.to_vec();
+        pl.extend_from_slice(b"xy");
+        shapes.push((plain(0x20, &pl), 0)); // marker at payload start
+        let mut pl = b"xy".to_vec();
+        pl.extend_from_slice(marker);
+        shapes.push((plain(0x21, &pl), 0)); // marker ends with the message
+        for spill in 1..4usize {
+            let mut pl = b"q".to_vec();
+            pl.extend_from_slice(&marker[..4 - spill]);
+            shapes.push((plain(0x20, &pl), spill));
+        }
+        if f == 0 {
+            let mut m = plain(0x20, b"ab");
+            m.secs = u32::from_le_bytes(*marker); // marker at offset 4: never scanned
+            shapes.push((m, 0));
+            let mut m = plain(0x20, b"ab");
+            m.secs = u32::from_le_bytes([0, marker[0], marker[1], marker[2]]);
+            m.micros = marker[3] as u32; // marker at offset 5: first scanned position
+            shapes.push((m, 0));
+        }
+        if f == 1 {
+            // serial: marker at offset 5 = mcnt 'L'.. no: htyp, then mcnt = 'D', len = "LS" (19539), first payload byte 1
+            let mut m = plain(0x20, b"");
+            m.mcnt = marker[0];
+            m.payload = vec![(1, vec![marker[3]]), (19539 - 4 - 1, vec![0x2e])];
+            assert_eq!(m.len(), 0x4c53);
+            shapes.push((m, 0));
+        }
+        for (m, spill) in shapes {
+            let big = m.len() > 1000;
+            for k in 0..7usize {
+                if big && !(k == 0 || k == 4 || k == 5) {
+                    continue;
+                }
+                for kind in 0..2 {
+                    let mut segs: Segs = vec![];
+                    m.enc(f, &mut segs);
+                    let mut tail: Vec<u8> = marker[4 - spill..].to_vec();
+                    if kind == 0 {
+                        tail.extend(std::iter::repeat(0x30u8).take(k));
+                    } else {
+                        // a complete following message (so a marker follows right after the spill-over bytes)
+                        let mut s2: Segs = vec![];
+                        plain(0x20, b"").enc(f, &mut s2);
+                        tail.extend_from_slice(&flatten(&s2));
+                        tail.extend(std::iter::repeat(0x31u8).take(k));
+                    }
+                    push_bytes(&mut segs, &tail);
+                    record(sink, Input::Raw { start: 0, segs }, &["heuristic_product"]);
+                }
+            }
+        }
+    }
+}
+
 pub fn near_max(sink: &mut Sink, rng: &mut Rng) {
     for f in 0..2u8 {
         for htyp in [0x20u8, 0x3f] {
@@ -722,6 +785,7 @@ fn main() {
     if a.tier != "search" {
         corpus(&mut sink);
         near_max(&mut sink, &mut rng);
+        heuristic_product(&mut sink);
         flag_product(&mut sink, &mut rng, false);
     }
     let n = a.count.unwrap_or(if quick { 360 } else if a.tier == "search" { 1500 } else { 6000 });
